@@ -62,6 +62,35 @@ fn series(r: &mut Rng, n: usize) -> (&'static str, Vec<f64>) {
     }
 }
 
+/// coverage audit: the corners of the property's quantifier that `series` does not draw (used by ADDED oracle
+/// iterations and ADDED correspondence cases only; the random stream of the earlier ones is untouched):
+/// AR coefficients close to the stationarity boundary (partial autocorrelations up to +-0.99, AR(1) with |phi| = 0.99),
+/// the families COMBINED (trend + offset, constant-plus-noise + offset), the offset at its stated maximum (mean exactly
+/// +-1e6), innovations of another scale, a trend that dominates the noise.
+fn series_wide(r: &mut Rng, n: usize, kind: usize) -> (&'static str, Vec<f64>) {
+    let q = 1 + r.below(6) as usize;
+    let big = |r: &mut Rng| -> f64 { if r.coin(0.5) { *r.pick(&[1e6, -1e6]) } else { *r.pick(&[1e6, -1e6, 1e5]) * r.uniform(0.5, 1.0) } };
+    match kind % 8 {
+        0 => { let phi = stationary_coeffs(r, q, 0.99); ("ar-near-unit-root", ar_sim(r, n, &phi, 1.0)) }
+        1 => { let phi = stationary_coeffs(r, q, 0.9); let base = ar_sim(r, n, &phi, 1.0);
+               let a = r.uniform(-0.05, 0.05); let c = big(r);
+               ("ar+trend+large-offset", base.iter().enumerate().map(|(i, v)| v + a * i as f64 + c).collect()) }
+        2 => { let c = big(r); let s = *r.pick(&[1e-3, 0.1, 1.0, 10.0]);
+               ("const+noise+large-offset", (0..n).map(|_| c + s * r.normal()).collect()) }
+        3 => { let phi = stationary_coeffs(r, q, 0.9); let base = ar_sim(r, n, &phi, 1.0);
+               // mean EXACTLY +-1e6: the sample mean of the simulated part is removed first (in the harness's own arithmetic)
+               let m = base.iter().sum::<f64>() / n as f64; let c = *r.pick(&[1e6, -1e6]);
+               ("ar+offset-at-1e6", base.iter().map(|v| (v - m) + c).collect()) }
+        4 => { let phi = stationary_coeffs(r, q, 0.9); let s = *r.pick(&[1e-3, 1e3]);
+               ("ar-scaled-innovations", ar_sim(r, n, &phi, s)) }
+        5 => { let phi = stationary_coeffs(r, q, 0.9); let base = ar_sim(r, n, &phi, 1.0);
+               let a = r.uniform(0.5, 2.0) * *r.pick(&[1.0, -1.0]); let b = r.uniform(-5.0, 5.0);
+               ("ar+steep-trend", base.iter().enumerate().map(|(i, v)| v + a * i as f64 + b).collect()) }
+        6 => { let f = *r.pick(&[0.99, -0.99, 0.95, -0.95]); ("ar1-near-unit-root", ar_sim(r, n, &[f], 1.0)) }
+        _ => series(r, n),   // the original families at the boundary lengths
+    }
+}
+
 fn specials(r: &mut Rng) -> f64 {
     *r.pick(&[0.0, -0.0, f64::INFINITY, f64::NEG_INFINITY, f64::NAN, 5e-324, -5e-324, 2.2250738585072014e-308,
               1.7976931348623157e308, -1.7976931348623157e308, 1e-200, 1e200, 1.0, -1.0])
@@ -225,8 +254,37 @@ pub fn gen(tier: &str, seed: u64, outdir: &str) {
             let x: Vec<f64> = (0..p + 5).map(|_| 1e6 + r.normal()).collect();
             push_predict(&mut cs, &co, 1e6, &x, 1000, "horizon1000"); }
     }
+    // 8. coverage audit (added): the corners of the quantifier. Shortest series (10, 11 points) with the largest order (8),
+    //    the wide families (near-unit-root coefficients, combined trend + offset, constant + noise at mean +-1e6, mean
+    //    exactly +-1e6, scaled innovations, dominating trend), EVERY lag -50..50 on one series per family, horizons 61..999
+    {
+        let mut wfitted: Vec<(Vec<f64>, Vec<f64>)> = vec![];
+        for kind in 0..8usize {
+            for (n, p) in [(10usize, 8usize), (11, 3), (40, 8)] {
+                if !thorough && kind % 2 == 1 && n == 11 { continue; }
+                let (fam, x) = series_wide(&mut r, n, kind);
+                if n == 10 { let lags: Vec<i32> = (-50..=50).collect(); push_lags(&mut cs, &x, &lags, &format!("acovf+acf/all-lags/{}", fam), true); }
+                if let Ok(st) = push_fit(&mut cs, p, &x, fam) { wfitted.push((x, st)); }
+            }
+        }
+        for (i, (x, st)) in wfitted.iter().enumerate() {
+            if !thorough && i % 3 != 0 { continue; }
+            let (mu, co) = (st[0], &st[1..]);
+            let h = match i % 4 { 0 => 61 + r.below(939) as usize, 1 => 999, 2 => 61, _ => 1 };
+            push_predict(&mut cs, co, mu, x, h, "wide");
+            push_predict_one(&mut cs, co, mu, x, "wide");
+        }
+        if thorough {
+            for kind in 0..8usize { for n in [5000usize, 4999] {
+                let (fam, x) = series_wide(&mut r, n, kind);
+                let lags: Vec<i32> = vec![0, 1, -1, 49, 50, -50];
+                push_lags(&mut cs, &x, &lags, &format!("acovf+acf/{}", fam), true);
+                if n == 5000 { let _ = push_fit(&mut cs, 8, &x, fam); }
+            } }
+        }
+    }
     cs.write(outdir, if thorough { 50 } else { 100 },
-             "acovf/acf on every length 0..=40 x lags {0,+-1,2,-3,+-(n-1),+-n,n+1,+-50,random}, on the property's series families (AR(1..6) simulations, trends, constant+noise, offsets to 1e6, dyadic grid; lengths 10..5000) with lags -50..50, on special values (+-0, +-inf, NaN, subnormals, constant series, lags i32::MAX / i32::MIN+1); difference on every length 0..=20 (empty panics); AR::new(p).fit for p = 0 (panic) and 1..9 on the families, on short data (length <= p) and on degenerate data, with the inner invert_matrix call recorded (argument bits, result bits or panic), and every one of these fits ALSO end to end (tags e2e-*: no record, the inner solve computed inside Coq by C01's executable model of invert_matrix; for series up to 200 points also the pipeline fit -> predict(data, h)); predict / predict_one on the fitted states (horizons 1..1000) and on hand-made states of order 0..17 with history lengths around p (short histories: predict panics, predict_one takes its short branch) and special values; non-trivial = length >= 3 and non-constant data (lag inside the series; horizon >= 2 for predict; order >= 2 for predict_one); distinct by hash of the case term");
+             "acovf/acf on every length 0..=40 x lags {0,+-1,2,-3,+-(n-1),+-n,n+1,+-50,random}, on the property's series families (AR(1..6) simulations, trends, constant+noise, offsets to 1e6, dyadic grid; lengths 10..5000) with lags -50..50, on special values (+-0, +-inf, NaN, subnormals, constant series, lags i32::MAX / i32::MIN+1); difference on every length 0..=20 (empty panics); AR::new(p).fit for p = 0 (panic) and 1..9 on the families, on short data (length <= p) and on degenerate data, with the inner invert_matrix call recorded (argument bits, result bits or panic), and every one of these fits ALSO end to end (tags e2e-*: no record, the inner solve computed inside Coq by C01's executable model of invert_matrix; for series up to 200 points also the pipeline fit -> predict(data, h)); predict / predict_one on the fitted states (horizons 1..1000) and on hand-made states of order 0..17 with history lengths around p (short histories: predict panics, predict_one takes its short branch) and special values; non-trivial = length >= 3 and non-constant data (lag inside the series; horizon >= 2 for predict; order >= 2 for predict_one); ADDED by the coverage audit: series of 10 / 11 / 40 points with orders 8 / 3 / 8 from the wide families (partial autocorrelations up to 0.99, AR(1) with |phi| up to 0.99, trend + offset, constant + noise at mean +-1e6, mean exactly +-1e6, innovations 1e-3 / 1e3, dominating trend), every lag -50..50 on one 10-point series per family, forecasts of those fits at horizons 1, 61, 61..999, 999 (thorough: also 4999 / 5000 points, order 8); distinct by hash of the case term");
 }
 
 // ---------------------------------------------------------------------------------------------
@@ -273,16 +331,23 @@ pub fn oracle(tier: &str, seed: u64) -> (u64, Vec<Finding>) {
     let mut add = |out: &mut Vec<Finding>, class: &str, what: String, input: String| {
         if out.iter().filter(|f| f.class == class).count() < 3 { out.push(Finding { class: class.into(), what, input }); }
     };
-    for it in 0..iters {
+    // coverage audit: ADDED iterations after the original ones (whose random stream is unchanged): boundary lengths x wide families
+    let extra = if tier == "thorough" { 3120 } else { 312 };
+    const WIDE_LEN: [usize; 13] = [10, 5000, 11, 10, 12, 16, 25, 64, 100, 300, 999, 2500, 4999];
+    for it in 0..iters + extra {
         // ---------------- series of the property's quantifier
-        let n = if it % 25 == 24 { 5000 } else if it % 5 == 4 { 10 + r.below(2000) as usize } else { 10 + r.below(300) as usize };
-        let (fam, x) = series(&mut r, n);
+        let wide = it >= iters; let j = (it.max(iters) - iters) as usize;
+        let (n, (fam, x)) = if !wide {
+            let n = if it % 25 == 24 { 5000 } else if it % 5 == 4 { 10 + r.below(2000) as usize } else { 10 + r.below(300) as usize };
+            (n, series(&mut r, n))
+        } else { let n = WIDE_LEN[j % 13]; (n, series_wide(&mut r, n, j)) };
         let xs = show(&x);
         let scale = x.iter().fold(0.0f64, |a, v| a.max(v.abs())) + 1.0;
         // ---- acovf / acf against the biased-estimator definitions; evenness; lag 0; bound; lag beyond the length
         let (g0, t0) = ref_acov(&x, 0);
         let mut lags: Vec<i64> = vec![0, 1, -1, 50, -50, n as i64, n as i64 + 3];
         for _ in 0..4 { lags.push(r.range(-50, 50)); }
+        if wide && (j / 13) % 3 == 0 { lags = (-50..=50).collect(); lags.push(n as i64); lags.push(n as i64 + 3); lags.push(n as i64 - 1); }   // every lag of the quantifier
         for &k in &lags {
             let k32 = k as i32;
             let input = format!("family={} lag={} series={}", fam, k, xs);
@@ -324,7 +389,7 @@ pub fn oracle(tier: &str, seed: u64) -> (u64, Vec<Finding>) {
             }
         }
         // ---- AR fit: Yule-Walker equations, intercept = mean
-        let p = 1 + r.below(8) as usize;
+        let p = if !wide { 1 + r.below(8) as usize } else { match (j / 8) % 3 { 0 => 8, 1 => 1 + r.below(8) as usize, _ => 1 + r.below(2) as usize } };
         let input = format!("family={} order={} series={}", fam, p, xs);
         crumb(&input); tried += 1;
         let mut ar = AR::new(p);
@@ -348,7 +413,8 @@ pub fn oracle(tier: &str, seed: u64) -> (u64, Vec<Finding>) {
             }
         }
         // ---- forecasts: mean + AR recursion on the mean-centred history (reference recursion with running error bound)
-        let h = if it % 10 == 9 { 1000 } else { 1 + r.below(60) as usize };
+        let h = if !wide { if it % 10 == 9 { 1000 } else { 1 + r.below(60) as usize } }
+                else { match j % 5 { 0 => 1000, 1 => 61 + r.below(939) as usize, 2 => 1, 3 => 999, _ => 1 + r.below(60) as usize } };
         tried += 2;
         crumb(&format!("{} horizon={}", input, h));
         let fc = catch(|| ar.predict(&x, h));
@@ -380,6 +446,20 @@ pub fn oracle(tier: &str, seed: u64) -> (u64, Vec<Finding>) {
                     let wmax = x[n - p..].iter().fold(0.0f64, |a, v| a.max((v - m).abs()));
                     let bound = sumabs.powi((h / p) as i32) * wmax * 1.001 + 1e-9 * scale;
                     if !((fc[h - 1] - m).abs() <= bound) { add(&mut out, "forecast:does-not-converge-to-mean", format!("forecast 1000 = {:e}, series mean {:e}, contraction bound {:e} (sum|phi| = {:e})", fc[h - 1], m, bound, sumabs), input.clone()); }
+                }
+                // coverage audit (added): the same clause where sum|phi| >= 1 (most stationary fits of order >= 2), which the contraction
+                // bound never reached. The centred forecast h is the first component of C^h w0 (C = companion matrix of phi), so
+                // |forecast_h - mean| <= ||first row of C^h||_1 max|w0| exactly; the row is computed here by repeated squaring with a
+                // running rounding-error bound, and the clause is demanded with the same slack as above. It says something only when
+                // the fit is stationary (the row then tends to 0); for a non-stationary fit the bound is large and nothing is demanded.
+                if h >= 999 && (sumabs >= 0.999 || h != 1000) {
+                    let (row, growth) = companion_power_row_bound(&phi, h);
+                    if row.is_finite() && growth.is_finite() {
+                        let wmax = x[n - p..].iter().fold(0.0f64, |a, v| a.max((v - m).abs()));
+                        let bound = row * wmax * 1.001 + 1e-9 * scale * (1.0 + growth);
+                        tried += 1;
+                        if !((fc[h - 1] - m).abs() <= bound) { add(&mut out, "forecast:does-not-converge-to-mean", format!("forecast {} = {:e}, series mean {:e}, bound ||e1^T C^h||_1 max|w0| = {:e} (companion matrix C of phi = {:?})", h, fc[h - 1], m, bound, phi), format!("{} horizon={}", input, h)); }
+                    }
                 }
             }
         } else if fc.is_err() { add(&mut out, "forecast:panics", "predict panicked with a history at least as long as the order".into(), input.clone()); }
@@ -419,7 +499,7 @@ pub fn oracle(tier: &str, seed: u64) -> (u64, Vec<Finding>) {
         }
         // ---- two-run relation: adding a constant c to the series leaves the coefficients and adds c to every forecast
         if well {
-            let c = if fam == "ar-dyadic" { r.range(-4096, 4096) as f64 } else { *r.pick(&[1.0, -7.5, 100.0, 1e3, -1e4, 1e6]) * r.uniform(0.5, 1.0) };
+            let c = if fam == "ar-dyadic" { r.range(-4096, 4096) as f64 } else if wide && j % 3 == 0 { *r.pick(&[1e6, -1e6]) } else { *r.pick(&[1.0, -7.5, 100.0, 1e3, -1e4, 1e6]) * r.uniform(0.5, 1.0) };
             let y: Vec<f64> = x.iter().map(|v| v + c).collect();
             let input2 = format!("{} shift={:e} horizon={}", input, c, h.min(50));
             crumb(&input2); tried += 1;
@@ -465,8 +545,51 @@ pub fn oracle(tier: &str, seed: u64) -> (u64, Vec<Finding>) {
     if catch(|| AR::new(0)).is_ok() { add(&mut out, "new:order-0-accepted", "AR::new(0) returned a model".into(), "AR::new(0)".into()); }
     { let ar = AR { p: 3, coeffs: vec![0.1, 0.2, 0.3], intercept: 0.0 };
       if let Ok(v) = catch(|| ar.predict(&[1.0, 2.0], 2)) { add(&mut out, "forecast:short-history-accepted", format!("predict with 2 observations for order 3 returned {:?}", v), "AR{coeffs:[0.1,0.2,0.3],intercept:0}.predict([1,2],2)".into()); } }
+    // coverage audit (added): the shortest cumulative sums (no increment: one point; one increment: two points)
+    for (c, inc) in [(vec![3.0], vec![]), (vec![-2.5], vec![]), (vec![3.0, 7.0], vec![4.0]), (vec![1e6, 1e6 - 1.0], vec![-1.0])] {
+        let input = format!("difference({})", json_floats(&c));
+        crumb(&input); tried += 1;
+        match catch(|| difference(c.clone())) {
+            Ok(d) => if d != inc { add(&mut out, "difference:not-inverse-of-cumsum", format!("difference of a cumulative sum with {} increment(s) returned {:?}; expected {:?}", inc.len(), d, inc), input); },
+            Err(e) => add(&mut out, "difference:panics", format!("panicked: {}", e), input),
+        }
+    }
     if let Ok(v) = catch(|| difference(vec![])) { add(&mut out, "difference:empty-accepted", format!("difference(vec![]) returned {:?}", v), "difference(vec![])".into()); }
     (tried, out)
+}
+
+/// (upper bound of the 1-norm of the first row of C^h, max over the squaring levels of ||C^(2^i)||_inf) for the companion
+/// matrix C of phi (first row phi, ones below the diagonal); binary exponentiation in binary64 with an entrywise running
+/// error bound E: fl(XY) carries |X| EY + EX |Y| + EX EY + (p+2) eps |X||Y|.
+fn companion_power_row_bound(phi: &[f64], h: usize) -> (f64, f64) {
+    let p = phi.len();
+    type M = Vec<f64>;
+    let mul = |x: &(M, M), y: &(M, M)| -> (M, M) {
+        let mut z = vec![0.0; p * p]; let mut e = vec![0.0; p * p];
+        for i in 0..p { for j in 0..p {
+            let (mut s, mut a, mut t) = (0.0f64, 0.0f64, 0.0f64);
+            for k in 0..p {
+                let (xv, yv, xe, ye) = (x.0[i * p + k], y.0[k * p + j], x.1[i * p + k], y.1[k * p + j]);
+                s += xv * yv; a += xv.abs() * yv.abs(); t += xv.abs() * ye + xe * yv.abs() + xe * ye;
+            }
+            z[i * p + j] = s; e[i * p + j] = (t + (p as f64 + 2.0) * EPS * a) * (1.0 + 8.0 * EPS);
+        } }
+        (z, e)
+    };
+    let mut c = vec![0.0; p * p];
+    for j in 0..p { c[j] = phi[j]; }
+    for i in 1..p { c[i * p + i - 1] = 1.0; }
+    let mut base: (M, M) = (c, vec![0.0; p * p]);
+    let mut acc: Option<(M, M)> = None;
+    let mut growth = 0.0f64; let mut k = h;
+    while k > 0 {
+        growth = growth.max((0..p).map(|i| (0..p).map(|j| base.0[i * p + j].abs() + base.1[i * p + j]).sum::<f64>()).fold(0.0, f64::max));
+        if k & 1 == 1 { acc = Some(match &acc { None => base.clone(), Some(a) => mul(a, &base) }); }
+        k >>= 1;
+        if k > 0 { base = mul(&base, &base); }
+    }
+    let a = acc.unwrap();
+    ((0..p).map(|j| a.0[j].abs() + a.1[j]).sum::<f64>(), growth)
 }
 
 fn rho_err_of(t0: f64, g0: f64) -> f64 { 8.0 * t0 / (g0 - t0) + 8.0 * EPS }
